@@ -1,6 +1,6 @@
 use insim_core::{
-    binrw::{self, binrw},
-    string::{binrw_parse_codepage_string_until_eof, binrw_write_codepage_string},
+    binrw::{self, binrw, BinWrite},
+    string::{binrw_parse_codepage_string_until_eof, codepages},
 };
 
 use super::SoundType;
@@ -25,9 +25,19 @@ pub struct Mtc {
     pub plid: PlayerId,
 
     /// Message
-    #[bw(write_with = binrw_write_codepage_string::<128, _>, args(false, 4))]
+    #[bw(write_with = binrw_write_mtc_text)]
     #[br(parse_with = binrw_parse_codepage_string_until_eof)]
     pub text: String,
+}
+
+/// Text is 4, 8, 12... 128 bytes and LFS requires the last byte to be zero: keep at most 127
+/// bytes of text and pad with at least one zero up to the next multiple of 4.
+#[binrw::writer(writer, endian)]
+fn binrw_write_mtc_text(input: &String) -> binrw::BinResult<()> {
+    let mut res = codepages::to_lossy_bytes(input).to_vec();
+    res.truncate(127);
+    res.resize((res.len() / 4 + 1) * 4, 0);
+    res.write_options(writer, endian, ())
 }
 
 impl_typical_with_request_id!(Mtc);
